@@ -27,7 +27,8 @@ NRUNS = {"quick": 6000, "thorough": 80000}
 RUN_TIMEOUT = 120.0
 MUST_REACH = ["cif_roundtrips", "rewrite_stable_checks", "handmade_texts", "nonp1_rejected", "su_parentheses", "cartesian_files", "ase_agreement_checks", "triclinic_cells", "faults_fired"]
 
-XL = {"atom": "_atom_site_x_%d", "bond": "_geom_bond_x_%d", "angle": "_geom_angle_x_%d", "dihedral": "_geom_torsion_x_%d"}
+XL = {"atom": "_atom_site_x_%s", "bond": "_geom_bond_x_%s", "angle": "_geom_angle_x_%s", "dihedral": "_geom_torsion_x_%s"}
+XNAMES = ["order", "dist", "ff10", "ff2", "0", "Zeta", "11"]     # in no alphabetical order: the file order is what must survive
 
 
 def generate(rng, tier):
@@ -35,7 +36,7 @@ def generate(rng, tier):
     cfg["cell_family"] = rng.choice(["ortho", "cubic", "tri_pos", "tri_neg", "tri_mixed", "tri_big", "tri_rotated"])
     cfg["pair"] = False
     cfg["tabled"] = {k: False for k in KINDS}
-    cfg["xlabels"] = {k: ([XL[k] % i for i in range(rng.randint(1, 2))] if (k in XL and rng.random() < 0.4) else []) for k in refmodel.XKINDS}
+    cfg["xlabels"] = {k: ([XL[k] % s_ for s_ in rng.sample(XNAMES, rng.randint(1, 3))] if (k in XL and rng.random() < 0.4) else []) for k in refmodel.XKINDS}
     cfg["table_container"] = "list"
     cell = geom.make_cell(rng, cfg["cell_family"], rng.uniform(5, 12), [], roomy=(1.0, 1.5)).tolist()
     fs = machine.gen_fragment(rng, cfg, "s", natoms=rng.randint(1, 12), cell=cell, elements=rng.sample(machine.SAFE_ELEMENTS, rng.randint(1, 4)))
@@ -454,6 +455,15 @@ def execute(spec, ctx):
         ctx.count("triclinic_cells")
     # writing the re-read structure again gives identical text (after one normalising pass)
     t2, p2 = _save(ctx, fs, re1, case["via_save"], "t2", fract)
+    # numbers may be normalised by the first pass (wrapping, printed precision); the LAYOUT may not: the data names of both texts (CIF data
+    # names are case-insensitive),
+    # in file order, are the same (same loops, same columns, same column order)
+    tags1 = [l.split()[0].lower() for l in t1.split("\n") if l.strip().startswith("_")]
+    tags2 = [l.split()[0].lower() for l in t2.split("\n") if l.strip().startswith("_")]
+    if tags1 != tags2:
+        k_ = next((i for i in range(min(len(tags1), len(tags2))) if tags1[i] != tags2[i]), min(len(tags1), len(tags2)))
+        raise Violation("c15:rewrite-changes-layout", "writing the re-read structure again lists other data names / another column order: item %d is %r, was %r"
+                        % (k_, tags2[k_] if k_ < len(tags2) else None, tags1[k_] if k_ < len(tags1) else None), site="save_p1_cif")
     re2 = _load(ctx, fs, p2, case["via_load"])
     t3, p3 = _save(ctx, fs, re2, case["via_save"], "t3", fract)
     if t2 != t3:
